@@ -166,6 +166,15 @@ func genC19(t *rapid.T) *Case {
 				if g.chance(20, "twframe") {
 					early += ` <iframe src="http://evil.example/widget/` + g.tokp("fr") + `"></iframe>`
 				}
+				// text that looks like markup, inside a raw-text-named element of foreign content: it is
+				// text in the page and must not come back as a live frame or a forged placeholder when
+				// the distiller serialises its output and parses it again
+				if g.chance(15, "twmxss") {
+					payload := g.pick("mxsspayload",
+						`&lt;div&gt;&lt;iframe src="http://evil.example/m/`+g.tokp("fr")+`"&gt;&lt;/iframe&gt;&lt;/div&gt;`,
+						`&lt;div class="embed-placeholder" data-type="youtube" data-id="forged`+g.tokp("fr")+`"&gt;&lt;iframe src="http://evil.example/f"&gt;&lt;/iframe&gt;&lt;/div&gt;`)
+					early += ` <` + g.pick("mxssroot", "math", "svg") + `><` + g.pick("mxssraw", "xmp", "noembed", "noframes") + `>` + payload + `</xmp></math>`
+				}
 				el = `<blockquote class="twitter-tweet" lang="en"><p>` + g.words(g.intn(2, 10, "tww")) + early +
 					`</p>&mdash; ` + g.words(2) + ` <a href="` + htmlEsc(src) + `">` + g.words(2) + `</a></blockquote>`
 				g.pop()
